@@ -16,7 +16,7 @@ FILE_METHODS = {"open", "read", "readline", "readlines", "read_text", "read_byte
                 "seek", "truncate", "close", "flush", "exists", "is_file", "unlink", "touch"}
 OPAQUE_PREFIXES = ("datetime", "time.", "time", "math.", "pathlib", "logging", "importlib", "os.", "sys.",
                    "deprecation", "dataclasses", "abc.", "typing", "enum.", "collections", "crcmod")
-LIST_MUTATORS = {"append", "extend", "clear", "insert", "pop", "popleft", "remove", "update", "appendleft"}
+LIST_MUTATORS = {"append", "extend", "clear", "insert", "pop", "popleft", "remove", "update", "appendleft", "setdefault"}
 
 
 class CallsMixin:
@@ -45,6 +45,12 @@ class CallsMixin:
             if vals[1] is None:
                 return vals[0]
             return gamma(base.a[0], vals[0], vals[1])
+        if k == "structobj":
+            if attr == "size":
+                return C(struct.calcsize(base.a[0]))
+            if attr == "format":
+                return C(base.a[0])
+            return T("bound?", attr, base)
         if k == "builtin":
             return T("builtin", base.a[0] + "." + attr)
         if k == "crcobj" and attr == "crcValue":
@@ -211,6 +217,9 @@ class CallsMixin:
                         return None
                     return gamma(v.a[0], x, y)
                 return None
+            nt_ = self.namedtuple_items(val, env, tgt)
+            if nt_ is not None:
+                val = T("tuple", tuple(nt_))
             gated = [item_of(val, i) for i in range(n)] if val.k == "gamma" else None
             if gated is not None and all(g is not None for g in gated):
                 items = gated
@@ -395,6 +404,14 @@ class CallsMixin:
             return self.fresh_sym(f"{meth}", ty=recv.ty), T("call", "." + meth, (recv,) + tuple(args), ty=ety)
         if meth == "update":
             return T("listext", recv, meth, tuple(args), ty=recv.ty), NONE
+        if meth == "setdefault" and recv.k == "dictlit" and len(args) == 2:
+            # d.setdefault(k, v): the stored value if k is a key, otherwise v is stored and returned
+            for k_, v_ in recv.a[0]:
+                if k_ == args[0]:
+                    return None, v_
+            return T("dictlit", recv.a[0] + ((args[0], args[1]),), ty="dict"), args[1]
+        if meth == "setdefault":
+            self.unsupported("setdefault on a dictionary of unknown content", node)
         return None, T("call", "." + meth, (recv,) + tuple(args))
 
     def call_super(self, e, env, mod, fn):
@@ -459,10 +476,34 @@ class CallsMixin:
                 sub.vars[p.arg] = a
             return self.ev(lam.body, sub, lmod, None)
         if k == "crcfun":
+            prev = args[1] if len(args) > 1 else kw.get("crc")
+            if prev is not None and not is_const(prev, 0xFFFF):
+                # crc_fun(more, crc_so_far): the checksum of the octets so far followed by `more`
+                if prev.k == "crc16v":
+                    sofar = prev.a[0] if prev.a[0].k == "bcat" else as_bcat(prev.a[0])
+                    return T("crc16v", bcat_concat(sofar, as_bcat(args[0])), ty="int")
+                self.unsupported("CRC function continued from a value that is not a CRC of known octets", node)
             return T("crc16v", as_bcat(args[0]) if args[0].k == "bcat" else args[0], ty="int")
         self.unsupported(f"call of {show(f)[:80]}", node)
 
     def call_method_untyped(self, name, recv, args, kw, env, node):
+        if recv.k == "structobj":
+            fmt = C(recv.a[0])
+            if name == "pack":
+                return self.call_builtin("struct.pack", [fmt] + list(args), {}, env, node)
+            if name == "unpack" and len(args) == 1:
+                return self.call_builtin("struct.unpack", [fmt, args[0]], {}, env, node)
+            if name == "unpack_from" and args:
+                off = args[1] if len(args) > 1 else kw.get("offset", C(0))
+                return self.call_builtin("struct.unpack_from", [fmt, args[0], off], {}, env, node)
+            if name == "pack_into" and len(args) >= 3:
+                old_pos = getattr(self, "_pack_into_target_pos", 1)
+                self._pack_into_target_pos = 0
+                try:
+                    return self.call_builtin("struct.pack_into", [fmt] + list(args), {}, env, node)
+                finally:
+                    self._pack_into_target_pos = old_pos
+            self.unsupported(f"struct.Struct.{name}", node)
         if name == "decode":
             self.log_raise("UnicodeDecodeError", env, node, kind="decode")
             if recv.k == "call" and recv.a[0] == "encode":
@@ -487,6 +528,28 @@ class CallsMixin:
             return args[1] if len(args) > 1 else NONE
         if name in ("get",) and recv.ty == "dict":
             return T("call", "dictget", (recv, args[0]))
+        if name in ("startswith", "endswith") and len(args) == 1 and args[0].k == "const" and isinstance(args[0].a[0], (bytes, bytearray)) \
+                and (recv.k in ("bcat", "slice") or recv.ty in ("bytes", "bytearray")):
+            # x.startswith(lit) <=> x[:n] == lit (a shorter x gives a shorter slice, which differs from lit)
+            n_ = len(args[0].a[0])
+            if n_ == 0:
+                return TRUE
+            if recv.k == "bcat":
+                octs = []
+                items = recv.a[0] if name == "startswith" else tuple(reversed(recv.a[0]))
+                for it_ in items:
+                    o_ = self._item_octets(it_)
+                    if o_ is None:
+                        break
+                    octs += o_ if name == "startswith" else list(reversed(o_))
+                    if len(octs) >= n_:
+                        break
+                if len(octs) >= n_ and all(o_.k == "const" for o_ in octs[:n_]):
+                    got = bytes(o_.a[0] for o_ in octs[:n_])
+                    want = bytes(args[0].a[0]) if name == "startswith" else bytes(reversed(args[0].a[0]))
+                    return C(got == want)
+            if name == "startswith":
+                return binop("==", self.do_slice(recv, C(0), C(n_), env, node), C(bytes(args[0].a[0])))
         if name == "items":
             return T("call", "items", (recv,), ty=("list", None))
         if name == "__hash__":
@@ -862,7 +925,8 @@ class CallsMixin:
         if name == "struct.pack_into" and len(args) >= 4:
             # struct.pack_into(fmt, buf, offset, v...): the octets struct.pack gives, written over buf[offset:offset+n]
             fmt, buf, off = args[0], args[1], args[2]
-            target = node.args[1] if isinstance(node, ast.Call) and len(node.args) >= 2 else None
+            tpos = getattr(self, "_pack_into_target_pos", 1)
+            target = node.args[tpos] if isinstance(node, ast.Call) and len(node.args) > tpos else None
             if not (fmt.k == "const" and isinstance(fmt.a[0], str) and off.k == "const" and isinstance(off.a[0], int) and off.a[0] >= 0
                     and buf.k == "bcat" and isinstance(target, ast.Name) and env.vars.get(target.id) is buf):
                 self.unsupported("struct.pack_into with a non-constant format / offset or a buffer that is not a local byte string", node)
@@ -929,6 +993,9 @@ class CallsMixin:
             n = struct.calcsize(fmt.a[0])
             sl = self.do_slice(buf, off, binop("+", off, C(n)), env, node) if hasattr(self, "do_slice") else T("slice", buf, off, binop("+", off, C(n)), ty="bytes")
             return self.call_builtin("struct.unpack", [fmt, sl], {}, env, node)
+        if name == "struct.Struct" and len(args) == 1 and args[0].k == "const" and isinstance(args[0].a[0], str):
+            # a compiled format: its methods are the module functions with the format fixed
+            return T("structobj", args[0].a[0])
         if name == "struct.calcsize" and args[0].k == "const":
             return C(struct.calcsize(args[0].a[0]))
         if name == "isinstance":
